@@ -82,6 +82,93 @@ func mutate(msg []byte, i int) ([]byte, string) {
 
 func nMutations(n int) int { return n + 8*n + 6*n + 5*n + 4*n }
 
+// ---- structure-consistent faults: an IE value replaced while every enclosing length is kept right ----
+
+type ieSpan struct{ hdr, val, end int } // header start, value start, value end (offsets into the message value)
+
+// lenAt reads an X.691 length determinant below 16384 at b[i]; n = octets it takes (0 = unsupported).
+func lenAt(b []byte, i int) (l, n int) {
+	if i >= len(b) {
+		return 0, 0
+	}
+	if b[i] < 0x80 {
+		return int(b[i]), 1
+	}
+	if b[i]&0xc0 == 0x80 && i+1 < len(b) {
+		return int(b[i]&0x3f)<<8 | int(b[i+1]), 2
+	}
+	return 0, 0
+}
+
+func putLen(l int) []byte {
+	if l < 128 {
+		return []byte{byte(l)}
+	}
+	return []byte{0x80 | byte(l>>8), byte(l)}
+}
+
+// ieSpans parses the outer shape every NGAP message of the corpus has: choice, procedure code,
+// criticality, length, then a SEQUENCE whose first component is the ProtocolIE-Container
+// (preamble octet, 16-bit count, IEs of id(2) criticality(1) length value).
+func ieSpans(msg []byte) (valueOff int, spans []ieSpan) {
+	if len(msg) < 7 {
+		return 0, nil
+	}
+	l, n := lenAt(msg, 3)
+	if n == 0 || 3+n+l != len(msg) {
+		return 0, nil
+	}
+	v := msg[3+n:]
+	if len(v) < 3 {
+		return 0, nil
+	}
+	count := int(v[1])<<8 | int(v[2])
+	p := 3
+	for k := 0; k < count; k++ {
+		if p+4 > len(v) {
+			return 0, nil
+		}
+		il, in := lenAt(v, p+3)
+		if in == 0 || p+3+in+il > len(v) {
+			return 0, nil
+		}
+		spans = append(spans, ieSpan{p, p + 3 + in, p + 3 + in + il})
+		p += 3 + in + il
+	}
+	if p != len(v) {
+		return 0, nil
+	}
+	return 3 + n, spans
+}
+
+// replaceIE rebuilds the message with the value of IE i replaced by payload; the IE's own length
+// and the message length are re-encoded so that only the value itself is wrong.
+func replaceIE(msg []byte, valueOff int, sp ieSpan, payload []byte) []byte {
+	v := msg[valueOff:]
+	nv := append([]byte{}, v[:sp.hdr+3]...)
+	nv = append(nv, putLen(len(payload))...)
+	nv = append(nv, payload...)
+	nv = append(nv, v[sp.end:]...)
+	out := append([]byte{}, msg[:3]...)
+	out = append(out, putLen(len(nv))...)
+	return append(out, nv...)
+}
+
+// iePayloads are the replacement values: nothing, every single octet, and a few two- and
+// three-octet values whose bits look like preambles, extension bits and length determinants.
+func iePayloads() [][]byte {
+	out := [][]byte{{}}
+	for b := 0; b < 256; b++ {
+		out = append(out, []byte{byte(b)})
+	}
+	for _, a := range []byte{0x00, 0x20, 0x40, 0x80, 0xc0, 0xff} {
+		for _, b := range []byte{0x00, 0x01, 0x7f, 0x80, 0xff} {
+			out = append(out, []byte{a, b}, []byte{a, b, 0x00})
+		}
+	}
+	return out
+}
+
 // multiMutate applies a seeded double fault / splice.
 func multiMutate(msg []byte, r *kernel.Rand, corpus [][]byte) ([]byte, string) {
 	out := append([]byte{}, msg...)
@@ -178,6 +265,20 @@ func rigDEC() {
 				panics++
 			}
 			decodes++
+		}
+		// structure-consistent faults: each IE value in turn replaced by each payload, lengths right
+		if off, spans := ieSpans(msg); spans != nil {
+			pl := iePayloads()
+			for si, sp := range spans {
+				for pi, p := range pl {
+					in := replaceIE(msg, off, sp, p)
+					mark(hi, 1<<29+si<<12+pi)
+					if decodeOne(hi, in, fmt.Sprintf("ie:%d=%x", si, p)) {
+						panics++
+					}
+					decodes++
+				}
+			}
 		}
 		for k := 0; k < multi; k++ {
 			in, desc := multiMutate(msg, r, corpus)
